@@ -230,16 +230,19 @@ def s4_s5(chk: Check, proj: Project) -> None:
     # S5
     inv = None
     for s in ast.walk(wr):
-        if isinstance(s, ast.Assign) and isinstance(s.targets[0], ast.Subscript) and isinstance(s.targets[0].value, ast.Name) and norm(s.targets[0].slice) == "key":
-            inv = s
+        if isinstance(s, ast.Assign) and isinstance(s.targets[0], ast.Subscript) and isinstance(s.targets[0].value, ast.Name) and isinstance(s.targets[0].slice, ast.Name) and norm(s.value).endswith(".value"):
+            kd = [x for x in ast.walk(wr) if isinstance(x, ast.Assign) and norm(x.targets[0]) == s.targets[0].slice.id and norm(x.value).endswith(".key")]
+            if kd:
+                inv = s
     if inv is None:
         chk.undecided("S5", "node:wrapper_render:special-keys", nm.loc(wr), "collection of non-identifier keys not found")
         return
     dname = norm(inv.targets[0].value)
+    kname = norm(inv.targets[0].slice)
     atoms = cond_atoms(inv)
-    cond_ok = any(pol and "not key.isidentifier()" in t for t, pol in atoms) or any(pol and "isidentifier" in t for t, pol in atoms)
-    dup = any((not pol) and t == f"key in {dname}" for t, pol in atoms)
-    dup_raise = any(isinstance(s, ast.If) and norm(s.test) == f"key in {dname}" and any(isinstance(r, ast.Raise) and "TypeError" in norm(r) for r in s.body) for s in ast.walk(wr))
+    cond_ok = any(pol and "isidentifier" in t for t, pol in atoms)
+    dup = any((not pol) and t == f"{kname} in {dname}" for t, pol in atoms)
+    dup_raise = any(isinstance(s, ast.If) and norm(s.test) == f"{kname} in {dname}" and any(isinstance(r, ast.Raise) and "TypeError" in norm(r) for r in s.body) for s in ast.walk(wr))
     chk.ob("S5", "node:wrapper_render:special-keys-duplicate-detection", nm.loc(inv), dup and dup_raise,
            f"a repeated non-identifier key raises TypeError before `{short(inv)}`" if dup and dup_raise else
            f"`{short(inv)}` overwrites an earlier value for the same non-identifier key: `{{% tag data-x=1 data-x=2 %}}` is accepted with the last value where Python raises 'got multiple values for keyword argument'")
